@@ -7,6 +7,8 @@
 use std::path::PathBuf;
 use rv::core::{supervise, worker_main, Tier};
 
+rv::define_clock_shim!();
+
 fn tier(s: &str) -> Tier {
     match s { "thorough" => Tier::Thorough, _ => Tier::Quick }
 }
@@ -14,6 +16,7 @@ fn tier(s: &str) -> Tier {
 fn main() {
     let args: Vec<String> = std::env::args().collect();
     if args.len() < 2 { eprintln!("usage: rv <ID> quick|thorough [--replay FILE]"); std::process::exit(2) }
+    if args[1] == "clock-test" { println!("clock shim active: {}", rv::clock::self_test()); return }
     if args[1] == "list" {
         for c in rv::props::all() { println!("{} {}", c.id, c.level) }
         return
